@@ -50,7 +50,7 @@ EPOCH = _dt.datetime(1970, 1, 1, tzinfo=_dt.timezone.utc)
 
 def budget(tier):
     if tier == 'thorough':
-        return {'seeds': 3000000, 'chunk': 2000, 'wall_cap': 1500, 'extra': {'big': True}}
+        return {'seeds': 4000000, 'chunk': 4000, 'wall_cap': 1200, 'extra': {'big': True}}
     return {'seeds': 120000, 'chunk': 500, 'wall_cap': 240, 'extra': None}
 
 
